@@ -236,6 +236,38 @@ def canon(x):
     return json.dumps(x, sort_keys=True, ensure_ascii=False)
 
 
+def exhaustive_only(mod):
+    """a generator that enumerates a finite table completely and takes no randomness gains nothing from more rounds"""
+    return bool(getattr(mod, "NO_EXTRA_ROUNDS", False))
+
+
+def changed_sources():
+    """files under src/clikit whose content differs from the one recorded when the checks were last validated
+    on the unchanged tree (source_fingerprints.json, written by tools/gen_fingerprints.py).  A change is NOT an
+    alarm: it only makes the run explore more (further rounds of generated cases), see Check.step_corr."""
+    import hashlib
+    fp = os.path.join(ROOT, "source_fingerprints.json")
+    if not os.path.exists(fp):
+        return []
+    with open(fp) as f:
+        want = json.load(f)["files"]
+    base = os.path.join(REPO, "src", "clikit")
+    seen, changed = set(), []
+    for dp, _dn, fns in os.walk(base):
+        for fn in fns:
+            if not fn.endswith(".py"):
+                continue
+            path = os.path.join(dp, fn)
+            rel = os.path.relpath(path, base)
+            seen.add(rel)
+            with open(path, "rb") as f:
+                h = hashlib.sha256(f.read()).hexdigest()
+            if want.get(rel) != h:
+                changed.append(rel)
+    changed.extend(sorted(set(want) - seen))
+    return sorted(changed)
+
+
 # --------------------------------------------------------------------------- pipeline
 class Check(object):
     def __init__(self, modname, tier, seed):
@@ -403,6 +435,31 @@ class Check(object):
         if truncated:
             exhaustive = False
             self.notes.append("case stream cut at the time budget")
+        # The source differs from the tree the checks were validated on: explore further before answering
+        # (other seeds, and the deeper generator of the thorough tier for one budget), unless something was found.
+        changed = changed_sources()
+        self.cov["source_changed_files"] = changed
+        rounds = 0
+        if changed and not exhaustive_only(mod):
+            budget = getattr(mod, "BUDGET_S", {"quick": 75, "thorough": 780})["quick"]
+            plan = [(self.tier, self.seed + 7919), ("thorough", self.seed + 2 * 7919)] if self.tier == "quick" else \
+                   [(self.tier, self.seed + 7919)]
+            for tier2, seed2 in plan:
+                if self.failing or self.disagreements:
+                    break
+                rounds += 1
+                end = time.time() + budget
+                batch = []
+                for case in mod.generate(tier2, random.Random(seed2)):
+                    batch.append(case)
+                    if len(batch) >= getattr(mod, "BATCH", 4000):
+                        flush(batch)
+                        batch = []
+                        if time.time() > end or self.failing or self.disagreements:
+                            break
+                if batch:
+                    flush(batch)
+        self.cov["extra_rounds_after_source_change"] = rounds
         self.cov.update({
             "evaluations": evaluations,
             "distinct_nontrivial": len(distinct),
